@@ -4,6 +4,7 @@ import TaskModel.Load.PathLemmas
 import TaskModel.Load.VarsLemmas
 import TaskModel.Gen.Fields
 import TaskModel.Gen.Load
+import TaskModel.Gen.MergeRule
 /-!
 # C08 — included tasks behave as namespaced copies of their definitions
 
@@ -254,19 +255,22 @@ example : finalRef [incNs [98] false, incNs [97] false] (colon :: [114]) = [114]
 every `dep.Task` / `cmd.Task`; and `TaskfileGraph.Merge` calls it on the root vertex after
 the merge loop, before returning that vertex's Taskfile. -/
 theorem root_ref_rule_in_source :
-    Load.tasksMergeRenames =
-      [("dep.Task", "taskRefWithNamespace", "dep.Task"), ("cmd.Task", "taskRefWithNamespace", "cmd.Task"),
-       ("task.Aliases[i]", "taskNameWithNamespace", "alias"), ("task.Aliases", "taskNameWithNamespace", "task.Task"),
-       ("task.Aliases", "taskNameWithNamespace", "alias"), ("taskName", "taskNameWithNamespace", "name")]
-    ∧ Load.taskRefWithNamespaceBody =
-      ["if strings.HasPrefix(taskName, NamespaceSeparator)", "return taskName",
-       "return taskNameWithNamespace(taskName, namespace)"]
-    ∧ Load.resolveRootRefsAssigns =
-      [("dep.Task", "strings.TrimPrefix(dep.Task, NamespaceSeparator)"),
-       ("cmd.Task", "strings.TrimPrefix(cmd.Task, NamespaceSeparator)")]
-    ∧ Load.graphMergeAfterLoop =
-      ["rootVertex, err := tfg.Vertex(hashes[0])", "rootVertex.Taskfile.Tasks.ResolveRootRefs()",
-       "return rootVertex.Taskfile, nil"] := by decide
+    MergeRule.tasksMergeRenames =
+      [("‹*ast.Dep›.Task", "taskRefWithNamespace", "‹*ast.Dep›.Task"),
+       ("‹*ast.Cmd›.Task", "taskRefWithNamespace", "‹*ast.Cmd›.Task"),
+       ("‹*ast.Task·2›.Aliases[‹int·3›]", "taskNameWithNamespace", "‹string·3›"),
+       ("‹*ast.Task·2›.Aliases", "taskNameWithNamespace", "‹*ast.Task·2›.Task"),
+       ("‹*ast.Task·2›.Aliases", "taskNameWithNamespace", "‹string·5›"),
+       ("‹string·2›", "taskNameWithNamespace", "‹string·1›")]
+    ∧ MergeRule.taskRefWithNamespaceBody =
+      ["if strings.HasPrefix(‹string·1›, NamespaceSeparator)", "return ‹string·1›",
+       "return taskNameWithNamespace(‹string·1›, ‹string·2›)"]
+    ∧ MergeRule.resolveRootRefsAssigns =
+      [("‹*ast.Dep›.Task", "strings.TrimPrefix(‹*ast.Dep›.Task, NamespaceSeparator)"),
+       ("‹*ast.Cmd›.Task", "strings.TrimPrefix(‹*ast.Cmd›.Task, NamespaceSeparator)")]
+    ∧ MergeRule.graphMergeAfterLoop =
+      ["‹*ast.TaskfileVertex·3›, ‹error·1› := ‹*ast.TaskfileGraph›.Vertex(‹[]string›[0])",
+       "‹*ast.TaskfileVertex·3›.Taskfile.Tasks.ResolveRootRefs()", "return ‹*ast.TaskfileVertex·3›.Taskfile, nil"] := by decide
 
 /-! ## C08_attrs — every attribute survives the copy -/
 
